@@ -16,6 +16,8 @@ static int cap_printf(const char *fmt, ...) { if (strstr(fmt, ": OK")) g_said_ok
 #undef printf
 #undef fprintf
 #undef fputs
+/* the tool is entered through its main() (the only name in that file that is not private to it) */
+static bool run_verify_main(const char *path) { char *av[] = { (char *) "mtbl_verify", (char *) path, NULL }; optind = 0; return verify_main(2, av) == 0; }
 
 /* ---- mapping seam: plain mmap, remembered so that it can be dropped after an abort ---- */
 static void *map_addr; static size_t map_len;
@@ -136,7 +138,7 @@ static void check_damaged(fcase *c) {
 	g_said_ok = g_said_failed = 0;
 	int lowfd = dup(0); close(lowfd);
 	bool vres = false, vabort = false;
-	if (VH_TRY_ASSERT(jb)) { vres = verify_file(s->path); VH_END_ASSERT(); } else { vabort = true; drop_map(); }
+	if (VH_TRY_ASSERT(jb)) { vres = run_verify_main(s->path); VH_END_ASSERT(); } else { vabort = true; drop_map(); }
 	/* verify_file() of the tool never closes the descriptor it opens (harmless in a command line tool, fatal in a loop): close it here,
 	 * otherwise later cases could not even open the file and would count as "rejected" for the wrong reason */
 	syscall(SYS_close_range, (unsigned) lowfd, ~0U, 0);
@@ -203,7 +205,7 @@ static void seed_must_verify(seed *s, int kind) {
 	vh_case_begin(render, &c);
 	g_said_ok = 0; sigjmp_buf jb; bool ok = false;
 	int lowfd0 = dup(0); close(lowfd0);
-	if (VH_TRY_ASSERT(jb)) { ok = verify_file(s->path); VH_END_ASSERT(); } else drop_map();
+	if (VH_TRY_ASSERT(jb)) { ok = run_verify_main(s->path); VH_END_ASSERT(); } else drop_map();
 	syscall(SYS_close_range, (unsigned) lowfd0, ~0U, 0);
 	if (!ok || g_said_ok != 1) vh_violation("intact-rejected", "mtbl_verify does not report the undamaged seed file %d as OK", kind);
 	{ char pp[64]; snprintf(pp, sizeof pp, "/proc/%d/fd/%d", (int) getpid(), s->fd); int so; int rc = verify_tool(pp, &so); if (rc == -2) printf("@error \"cksum: mtbl_verify tool not built\"\n"); else { if (rc != 0 || !so) vh_violation("intact-rejected", "the mtbl_verify binary exits %d / prints OK=%d on the undamaged seed file %d", rc, so, kind); VH_COUNT("tool_runs", 1); } }
